@@ -317,4 +317,6 @@ class TrioEventLoop(EventLoop):
             # closed and calling wait_readable with a closed fd does not work.
             while not scope.cancel_called:
                 await self._wait_readable(fd)
+                if scope.cancel_called:
+                    break  # the watch was removed by another callback after this task was woken
                 callback()
